@@ -134,11 +134,15 @@ func pdataUses(p *core.Prog, reach map[*ssa.Function]bool) map[string]dmUse {
 	for _, fn := range sortedFuncs(p, reach) {
 		fn := fn
 		core.EachInstr(fn, func(i ssa.Instruction) {
-			ci, ok := i.(ssa.CallInstruction)
-			if !ok {
-				return
+			var f *types.Func
+			switch i := i.(type) {
+			case ssa.CallInstruction:
+				f = pdataCallee(i)
+			case *ssa.MakeClosure:
+				// a method value x.M handed on as a function: the bound
+				// wrapper calls M on x and nothing else.
+				f = boundPdataMethod(i)
 			}
-			f := pdataCallee(ci)
 			if f == nil {
 				return
 			}
@@ -149,6 +153,23 @@ func pdataUses(p *core.Prog, reach map[*ssa.Function]bool) map[string]dmUse {
 		})
 	}
 	return out
+}
+
+// boundPdataMethod returns M when mc is the method value x.M of a pdata type.
+func boundPdataMethod(mc *ssa.MakeClosure) *types.Func {
+	w, _ := mc.Fn.(*ssa.Function)
+	if w == nil || !strings.HasPrefix(w.Synthetic, "bound method wrapper") {
+		return nil
+	}
+	f, _ := w.Object().(*types.Func)
+	if f == nil {
+		return nil
+	}
+	n := core.RecvNamed(f)
+	if n == nil || n.Obj().Pkg() == nil || !strings.HasPrefix(n.Obj().Pkg().Path(), core.PdataPath) {
+		return nil
+	}
+	return f
 }
 
 type dmSignal struct {
